@@ -700,6 +700,7 @@ func runC14(c *evid.Ctx) {
 		}
 	}
 	c14LateClose(c)
+	c14AfterFaults(c)
 	// stress under perturbation
 	ctl := sched.New()
 	ctl.Perturb(c.Seed, 0.3)
